@@ -30,3 +30,21 @@ func TestReservedSetsOnlyGrow(t *testing.T) {
 		r.NonTrivial(v.Old + v.New)
 	})
 }
+
+// Defaults that do not change: a message whose fields carry boundary defaults (limits of the integer types,
+// float limits, inf, nan, escapes) is compared with itself and with a copy that gained a message.
+func TestDefaultsUnchanged(t *testing.T) {
+	r := evid.R()
+	ctx := context.Background()
+	r.Check(t, r.Scale(120, 4000), 4, func(t *rapid.T) {
+		v := protogen.GenDefaultCase(t)
+		ms := []Mod{{Dir: "m"}}
+		grown := v.Old + "\nmessage AddedLater {\n  repeated string note = 1;\n}\n"
+		c := &Case{Mode: "chain", Versions: []Version{
+			{Mods: ms, Files: map[string]map[string]string{"m": {v.Path: v.Old}}, How: "generated"},
+			{Mods: ms, Files: map[string]map[string]string{"m": {v.Path: grown}}, How: "add-message: after defaulted fields (" + v.Steps[0] + ")"},
+		}}
+		run(ctx, t, r, c)
+		r.NonTrivial(v.Old)
+	})
+}
